@@ -799,6 +799,25 @@ def share_equal_subnodes(spec, rng, prob=0.7):
     return out, counter[0]
 
 
+def alias_two_scalars(spec, rng):
+    """Anchor one scalar value of a tree-shaped spec and put an alias to it
+    where another scalar value stands (which thereby takes the first one's
+    text and tag): one node object at two positions that the model may type
+    differently.  Returns the new spec or None."""
+    cands = [p for p, sub in paths(spec)
+             if p and p[-1][0] != 'k' and sub[0] == 's']
+    if len(cands) < 2:
+        return None
+    a, b = rng.sample(cands, 2)
+
+    def order(path):
+        return tuple((st[1], 0 if st[0] == 'k' else 1) for st in path)
+    first, second = sorted([a, b], key=order)
+    src = get_at(spec, a)
+    out = set_at(spec, first, ['anchor', 'sc', list(src)])
+    return set_at(out, second, ['alias', 'sc'])
+
+
 # ---------------------------------------------------------------------------
 # text-level hostile inputs
 
